@@ -68,6 +68,32 @@ fn expected(entry: usize, n: c_int) -> Class {
 }
 
 static RUNS: AtomicUsize = AtomicUsize::new(0);
+static GUARD_DROPS: AtomicUsize = AtomicUsize::new(0);
+
+/// Captured by the would-be actions: the last owner of a companion registration, which its Drop removes (a Drop that calls
+/// back into the registry, as the Drop of the last iterator Handle does).
+struct ReentrantGuard {
+    companion: Option<signal_hook_registry::SigId>,
+}
+
+impl ReentrantGuard {
+    fn new() -> ReentrantGuard {
+        let id = unsafe { signal_hook_registry::register(libc::SIGUSR1, || ()) }.ok();
+        ReentrantGuard { companion: id }
+    }
+    fn touch(&self) {
+        RUNS.fetch_add(1, Ordering::SeqCst);
+    }
+}
+
+impl Drop for ReentrantGuard {
+    fn drop(&mut self) {
+        if let Some(id) = self.companion.take() {
+            signal_hook_registry::unregister(id);
+        }
+        GUARD_DROPS.fetch_add(1, Ordering::SeqCst);
+    }
+}
 static IT_STORED: AtomicUsize = AtomicUsize::new(0);
 
 fn observer(s: u32, _a: usize, _b: usize) {
@@ -87,13 +113,16 @@ fn call(e: usize, n: c_int, problems: &mut Vec<String>) -> Class {
     if e == 10 {
         unsafe { libc::pipe(raw_pipe.as_mut_ptr()) };
     }
+    let guard = if e <= 4 { Some(ReentrantGuard::new()) } else { None };
+    let drops0 = GUARD_DROPS.load(Ordering::SeqCst);
+    let had_guard = guard.is_some();
     let r = catch_unwind(AssertUnwindSafe(|| -> Result<(), std::io::Error> {
         match e {
-            0 => unsafe { signal_hook_registry::register(n, || { RUNS.fetch_add(1, Ordering::SeqCst); }) }.map(|_| ()),
-            1 => unsafe { signal_hook_registry::register_sigaction(n, |_| { RUNS.fetch_add(1, Ordering::SeqCst); }) }.map(|_| ()),
-            2 => unsafe { signal_hook_registry::register_unchecked(n, |_| { RUNS.fetch_add(1, Ordering::SeqCst); }) }.map(|_| ()),
-            3 => unsafe { signal_hook_registry::register_signal_unchecked(n, || { RUNS.fetch_add(1, Ordering::SeqCst); }) }.map(|_| ()),
-            4 => unsafe { signal_hook::low_level::register(n, || { RUNS.fetch_add(1, Ordering::SeqCst); }) }.map(|_| ()),
+            0 => { let g = guard.unwrap(); unsafe { signal_hook_registry::register(n, move || g.touch()) }.map(|_| ()) }
+            1 => { let g = guard.unwrap(); unsafe { signal_hook_registry::register_sigaction(n, move |_| g.touch()) }.map(|_| ()) }
+            2 => { let g = guard.unwrap(); unsafe { signal_hook_registry::register_unchecked(n, move |_| g.touch()) }.map(|_| ()) }
+            3 => { let g = guard.unwrap(); unsafe { signal_hook_registry::register_signal_unchecked(n, move || g.touch()) }.map(|_| ()) }
+            4 => { let g = guard.unwrap(); unsafe { signal_hook::low_level::register(n, move || g.touch()) }.map(|_| ()) }
             5 => signal_hook::flag::register(n, flag.clone()).map(|_| ()),
             6 => signal_hook::flag::register_usize(n, uflag.clone(), 5).map(|_| ()),
             7 => signal_hook::flag::register_conditional_shutdown(n, 3, flag.clone()).map(|_| ()),
@@ -133,6 +162,9 @@ fn call(e: usize, n: c_int, problems: &mut Vec<String>) -> Class {
         Ok(Err(_)) => Class::Err,
         Err(_) => Class::Panic,
     };
+    if class != Class::Ok && had_guard && GUARD_DROPS.load(Ordering::SeqCst) != drops0 + 1 {
+        problems.push(format!("what the refused action captured was dropped {} times (reference not released exactly once)", GUARD_DROPS.load(Ordering::SeqCst) - drops0));
+    }
     if class != Class::Ok {
         if Arc::strong_count(&flag) != 1 || Arc::strong_count(&uflag) != 1 {
             problems.push(format!("a refused registration kept a reference to the flag (strong counts {} / {})", Arc::strong_count(&flag), Arc::strong_count(&uflag)));
@@ -172,6 +204,10 @@ fn child(e: usize, n: c_int, context: u32, fd: i32) -> i32 {
     if (11..=15).contains(&e) {
         // these entry points register SIGWINCH first: let the library own that signal already
         let _ = unsafe { signal_hook_registry::register(libc::SIGWINCH, || ()) };
+    }
+    if e <= 4 {
+        // the would-be action's captured guard owns a companion registration on SIGUSR1: the library owns that signal already
+        let _ = unsafe { signal_hook_registry::register(libc::SIGUSR1, || ()) };
     }
     let before: Vec<_> = (1..=64).map(crate::sig::disposition).collect();
     let fds_before = crate::sig::open_fds();
@@ -254,7 +290,7 @@ pub fn main(args: &[String]) -> i32 {
                 if !full && !forbidden.contains(&n) && (ni as u64 + e as u64 + seed + context as u64) % 3 != 0 {
                     continue;
                 }
-                let res = fork::probe(20_000, false, move |fd| child(e, n, context, fd));
+                let res = fork::probe_ex(20_000, false, true, move |fd| child(e, n, context, fd));
                 probes += 1;
                 let label = format!("{}({}) {}", ename, n, ["in a fresh process", "after 5 other registrations", "after an unchecked registration of the same number"][context as usize]);
                 let want = expected(e, n);
@@ -262,6 +298,10 @@ pub fn main(args: &[String]) -> i32 {
                     End::Exit(0) if res.out.contains("DONE") => {}
                     End::Timeout => {
                         inconclusive = Some(format!("probe timed out: {}", label));
+                        continue;
+                    }
+                    End::Deadlocked(why) => {
+                        bad.push((format!("library-wedged-by-refusal:{}", ename), format!("{}: the process deadlocked during / after the refused registration: {} (the refused action's captured state removes a companion registration when it is dropped)", label, why)));
                         continue;
                     }
                     other => {
